@@ -17,6 +17,7 @@ pub mod c13;
 pub mod c14;
 pub mod c15;
 pub mod c16;
+pub mod c17;
 pub mod c18;
 pub mod c19;
 pub mod c20;
@@ -46,6 +47,7 @@ pub fn run(engine: &str, ctx: &Ctx) -> Option<Report> {
         "c14" => c14::run(ctx, &mut rep),
         "c15" => c15::run(ctx, &mut rep),
         "c16" => c16::run(ctx, &mut rep),
+        "c17" => c17::run(ctx, &mut rep),
         "c18" => c18::run(ctx, &mut rep),
         "c19" => c19::run(ctx, &mut rep),
         "c20" => c20::run(ctx, &mut rep),
